@@ -778,6 +778,7 @@ func (g *gen) colourTables() {
 // ---- 2. pixel refinement ----
 
 type drawRec struct {
+	curved bool
 	z      int
 	rule   int
 	polys  [][]hc.P2 // canvas mm
@@ -861,7 +862,6 @@ func (g *gen) onePixelCase(it int) {
 	var descr []string
 	unit0 := math.Min(W, H) / 20 // polygons live in [-8,8]^2
 	ndraws := 1 + c.Intn(3)
-	flattenZone := false
 	viewKinds := ""
 	for k := 0; k < ndraws; k++ {
 		// view: centre + rotation/scale/… ; both through the composer API and through SetView
@@ -935,12 +935,36 @@ func (g *gen) onePixelCase(it int) {
 
 		// path
 		var pool []hc.P2
-		class := []int{0, 0, 2, 3, 3, 4}[c.Intn(6)]
+		class := []int{0, 0, 2, 3, 3, 4, 5, 5}[c.Intn(8)]
 		closeAll := !c.Chance(0.08)
-		p := c.GenPolygon(class, &pool, closeAll)
-		if c.Chance(0.25) {
-			p = p.Append(c.GenPolygon(class, &pool, closeAll))
+		var p *canvas.Path
+		if class == 5 {
+			// cubics whose control polygon folds back along the start tangent (the family that the flattener's
+			// chord check f410714 exists for: 23% of them were beyond 4 tol before it, none after)
+			p = &canvas.Path{}
+			p0 := hc.P2{X: c.Range(-2, 2), Y: c.Range(-2, 2)}
+			p.MoveTo(p0.X, p0.Y)
+			for k := 0; k < 1+c.Intn(2); k++ {
+				a := c.Range(0, 2*math.Pi)
+				u, n := hc.P2{X: math.Cos(a), Y: math.Sin(a)}, hc.P2{X: -math.Sin(a), Y: math.Cos(a)}
+				p1 := p0.Add(u.Mul(c.Range(2, 6)))
+				p2 := p0.Add(u.Mul(-c.Range(1, 4))).Add(n.Mul(c.Range(-1, 1)))
+				side := 1.0
+				if c.Bool() {
+					side = -1
+				}
+				p3 := p0.Add(u.Mul(c.Range(-3, 3))).Add(n.Mul(side * c.Range(3, 7)))
+				p.CubeTo(p1.X, p1.Y, p2.X, p2.Y, p3.X, p3.Y)
+				p0 = p3
+			}
+			p.Close()
+		} else {
+			p = c.GenPolygon(class, &pool, closeAll)
+			if c.Chance(0.25) {
+				p = p.Append(c.GenPolygon(class, &pool, closeAll))
+			}
 		}
+		curved := class == 4 || class == 5
 		if c.Chance(0.3) { // quarter-millimetre coordinates
 			p = p.Scale(0.25*float64(3+c.Intn(3)), 0.25*float64(3+c.Intn(3)))
 		}
@@ -963,31 +987,44 @@ func (g *gen) onePixelCase(it int) {
 		ox, oy := 0.25*float64(c.Intn(9)-4), 0.25*float64(c.Intn(9)-4)
 		M := csv(csys, W, H).mul(view).mul(translate(ox, oy))
 		cs0, ok := hc.Contours(p)
-		if class == 4 { // curved: the region is an independent fine sampling of the segments
+		if curved { // curved: the region is an independent fine sampling of the segments
 			cs0, ok = sampleContours(p, 48)
 		}
 		if !ok || len(cs0) == 0 {
 			c.Count("skipped: not flat")
 			continue
 		}
-		if class == 4 {
-			// cause predicate of C14-flatten-tolerance-exceeded: the library's own flattening of the
-			// transformed path (what RenderPath/ToScanxScanner do, tolerance 0.1 px) is farther than a
-			// quarter pixel from the curve (C03's flattening defects) — the 1 px band leaves 0.29 px
+		if curved {
+			// curved fills are judged with a band of 1.25 px: pixel half diagonal 0.71 + the library's
+			// flattening bound (every curve within 4·PixelTolerance = 0.4 px since f410714) + roundings.
+			// The bound itself is guarded here on what RenderPath/ToScanxScanner flatten: the transformed path
+			// at 0.1 px, against an independent 48-chord sampling.
 			var lcs [][]hc.P2
 			if msg := hc.Try(func() {
 				lib := p.Copy().Transform(M.canvas()).Flatten(canvas.PixelTolerance / dpmm)
 				lcs, _ = hc.Contours(lib)
 			}); msg == "" && len(lcs) > 0 {
-				dev := 0.0
+				dev, at := 0.0, hc.P2{}
 				for _, ct := range mapContours(M, cs0) {
 					for _, pt := range ct {
-						dev = math.Max(dev, hc.DistToContours(pt, lcs))
+						if dd := hc.DistToContours(pt, lcs); dd > dev {
+							dev, at = dd, pt
+						}
 					}
 				}
-				if dev*dpmm > 0.25 {
-					flattenZone = true
-					c.Count("draw fill curved: library flattening deviates > 0.25 px")
+				c.Evals++
+				switch d := dev * dpmm; {
+				case d <= 0.1:
+					c.Count("curved fill: library flattening within 0.1 px (= tolerance)")
+				case d <= 0.2:
+					c.Count("curved fill: library flattening within 0.2 px")
+				case d <= 0.3:
+					c.Count("curved fill: library flattening within 0.3 px")
+				case d <= 0.4:
+					c.Count("curved fill: library flattening within 0.4 px (= 4 tol, the library's bound)")
+				default:
+					c.Fail("flatten-tolerance-exceeded", fmt.Sprintf("the path the rasterizer flattens at 0.1 px is %.3f px (> 4 tol = 0.4 px) away from the curve at canvas point (%.4g,%.4g): the 1.25 px band of curved fills is not justified", d, at.X, at.Y),
+						map[string]any{"path": p.String(), "matrix": fmt.Sprint(M), "dpmm": dpmm})
 				}
 			}
 		}
@@ -1000,7 +1037,7 @@ func (g *gen) onePixelCase(it int) {
 		if mode <= 5 || mode >= 8 {
 			col := g.colour(used)
 			ctx.SetFillColor(col)
-			draws = append(draws, drawRec{z: z, rule: rule, polys: mapContours(M, cs0), col: col, what: "fill", open: open})
+			draws = append(draws, drawRec{curved: curved, z: z, rule: rule, polys: mapContours(M, cs0), col: col, what: "fill", open: open})
 			d += fmt.Sprintf(" fill=%v", col)
 			c.Count(fmt.Sprintf("draw fill rule=%d class=%d open=%v", rule, class, open))
 		}
@@ -1131,18 +1168,16 @@ func (g *gen) onePixelCase(it int) {
 	var sb strings.Builder
 	fmt.Fprintf(&sb, "PIX %s %d %d %d", hc.H(dpmm), wpx, hpx, len(draws))
 	for _, d := range draws {
-		fmt.Fprintf(&sb, " %d %s", d.rule, hc.PolyTokens(d.polys))
+		if d.curved {
+			sb.WriteString(" c") // sampled curve: band 1.25 px
+		} else {
+			sb.WriteString(" ")
+		}
+		fmt.Fprintf(&sb, "%d %s", d.rule, hc.PolyTokens(d.polys))
 	}
 	sb.WriteString(" ROWS ")
 	sb.WriteString(strings.Join(rows, " "))
-	sfx := ""
-	if flattenZone {
-		sfx += "+flatten-tolerance-exceeded"
-	}
-	if sfx != "" {
-		sfx = " " + sfx
-	}
-	c.Case(sb.String(), "!", "pixels"+sfx)
+	c.Case(sb.String(), "!", "pixels")
 	// human-readable description of the canvas behind every PIX line (same order), for replays
 	if f, err := os.OpenFile(filepath.Join(os.Args[4], "c14_pix_descr.txt"), os.O_APPEND|os.O_CREATE|os.O_WRONLY, 0o644); err == nil {
 		fmt.Fprintf(f, "%vx%v mm @%v px/mm, system %d, linear=%v: %s\n", W, H, dpmm, int(csys)+1, linear, strings.Join(descr, " ; "))
